@@ -1,5 +1,7 @@
 """C04 - canary blast radius: the new template runs only on the selected canary nodes."""
 import histgen
+import k8s as K
+import project as P
 import worldgen
 import wprop
 from wprop import encode, classify_unencodable, sample  # noqa: F401
@@ -45,6 +47,20 @@ def generate(rng, tier, stats):
         force = {"scenario": rng.choice(["canary", "canary", "active_with_canary", "active_with_canary", "unknown_leftover"]),
                  "open_gates": rng.random() < 0.8}
         out.append(worldgen.gen_ers_world(rng, stats, force))
+    # (b') a replica set promoted a moment ago whose pods are all Ready already (the canary covered every node): nothing is
+    # left to roll out, and the pods still lose the canary label
+    for _ in range(16 if tier == "quick" else 200):
+        c = worldgen.gen_ers_world(rng, stats, {"scenario": "active", "n": rng.choice([1, 2, 3]), "open_gates": True, "no_faults": True,
+                                                "classes": ["uptodate_ready"], "annotations": {}})
+        for o in c["objects"]:
+            if o["kind"] == "Pod" and o["metadata"]["labels"].get(P.K_RS) == "foo-a":
+                o["metadata"]["labels"][P.K_CANARY] = "true"
+            if o["kind"] == "ExtendedDaemonSetReplicaSet" and o["metadata"]["name"] == "foo-a":
+                conds = o["status"].setdefault("conditions", [])
+                conds[:] = [x for x in conds if x["type"] != "Active"]
+                conds.append(K.cond("Active", "True", trans=-rng.choice([5, 60, 299])))
+        wprop.bump(stats, "promoted with every pod Ready and labelled", "yes")
+        out.append(c)
     # (c) ExtendedDaemonSet reconciles on a running canary whose previous node list is shorter, equal or LONGER than the
     # resolved replicas (replicas lowered mid-canary, percent with node churn): the list never grows beyond the replicas
     import p_c15
